@@ -423,6 +423,8 @@ def _safe(o):
 
 
 def run(ctx):
+    from . import _large
+    _large.c15(ctx)           # lengths on both sides of 2**8, 2**12, 2**16 (see _large.py)
     b = bounds(ctx.quick)
     helper_so()                       # compiled once, inherited by the forked workers
     items = []
@@ -481,6 +483,20 @@ def run(ctx):
 
 
 def replay(detail):
+    if detail.get("large"):
+        from . import _large
+
+        class _C(object):
+            n = 0
+
+            def count(self, *a):
+                pass
+
+            def violation(self, sig, d):
+                _C.n += 1
+                print("VIOLATED", sig, d)
+        _large.c15(_C())
+        return 1 if _C.n else 0
     st = state()
     ti = detail["ti"]
     cps = tuple(detail["cps"])
